@@ -20,6 +20,7 @@ mod gens;
 mod lang;
 mod vrlrun;
 mod vrlrun_c22;
+mod vrlrun_c27;
 mod rng;
 mod sink;
 mod sweep;
